@@ -8,7 +8,7 @@ import ast
 
 from .. import cli
 from ..astx import dotted, call_name, walk_no_nested, parent, ancestors, dominating_conditions, flatten_conditions, \
-    str_const, kwarg, func_params
+    str_const, kwarg, func_params, resolve_local
 from ..core import norm, Inconclusive
 
 
@@ -202,6 +202,10 @@ def _r14a(ctx, f):
     ctx.floor("R14a", n_sinks, 5, "role sinks in main")
 
 
+def is_none_const(e):
+    return isinstance(e, ast.Constant) and e.value is None
+
+
 def r14b(ctx, f, specs, groups):
     ctx.rule("R14b", "alias equivalence by finite evaluation of main's option logic: -k == --dict-strategy none; "
                      "default == --dict-strategy auto; -j == -jl -jd; --from-TYPE/--to-TYPE store that type's default "
@@ -349,6 +353,12 @@ def r14b(ctx, f, specs, groups):
                 if isinstance(a, ast.Assign) and isinstance(a.value, ast.Call) and any(isinstance(x, ast.Constant) and x.value == side for x in a.value.args):
                     r_ = ctx.model.resolve_expr(f.module, a.value.func)
                     h = ctx.model.functions.get(r_[0][1]) if r_ and r_[0] and r_[0][0] == "func" else None
+                    if h is None and isinstance(a.value.func, ast.Name):
+                        # a closure of main
+                        inner = [d_ for d_ in ast.walk(fn) if isinstance(d_, ast.FunctionDef) and d_ is not fn and d_.name == a.value.func.id]
+                        if len(inner) == 1:
+                            import types as _types
+                            h = _types.SimpleNamespace(node=inner[0], short=f"main.{inner[0].name}")
                     if h is None:
                         continue
                     hp = func_params(h.node)
@@ -360,6 +370,27 @@ def r14b(ctx, f, specs, groups):
                             if len(parts) == 3 and isinstance(parts[0], ast.FormattedValue) and dotted(parts[0].value) == sp \
                                     and isinstance(parts[1], ast.Constant) and parts[1].value == "_" and isinstance(parts[2], ast.FormattedValue):
                                 lp = next((z for z in ancestors(x) if isinstance(z, ast.For)), None)
+                                gen = next((z for z in ancestors(x) if isinstance(z, ast.GeneratorExp)), None)
+                                if lp is None and gen is not None and x is gen.elt and len(gen.generators) == 1 and not gen.generators[0].ifs:
+                                    # lazily: `flags = (getattr(args, f'{side}_{name}') for name in REGISTRY)`, then
+                                    # `next((v for v in flags if v is not None), None)` - the first option that is set
+                                    reg_ok = "FILETYPES_BY_TYPENAME" in ast.unparse(gen.generators[0].iter)
+                                    first = False
+                                    for nx in walk_no_nested(h.node):
+                                        if isinstance(nx, ast.Call) and call_name(nx) == "next" and nx.args and isinstance(nx.args[0], ast.GeneratorExp):
+                                            g2 = nx.args[0]
+                                            src = resolve_local(h.node, g2.generators[0].iter)
+                                            v2 = g2.generators[0].target.id if isinstance(g2.generators[0].target, ast.Name) else None
+                                            if src is gen and len(g2.generators) == 1 and dotted(g2.elt) == v2 and len(g2.generators[0].ifs) == 1 \
+                                                    and ast.unparse(g2.generators[0].ifs[0]).replace(" ", "") == f"{v2}isnotNone" \
+                                                    and len(nx.args) == 2 and is_none_const(nx.args[1]):
+                                                first = True
+                                    if reg_ok and first:
+                                        helper_ok = True
+                                    else:
+                                        problems.append(f"the lookup in {h.short} does not stop at the first option that is set (or does not iterate FILETYPES_BY_TYPENAME)")
+                                        helper_ok = None
+                                    continue
                                 asg = parent(x)
                                 var = asg.targets[0].id if isinstance(asg, ast.Assign) and isinstance(asg.targets[0], ast.Name) else None
                                 first_wins = lp is not None and any(
